@@ -210,50 +210,53 @@ def longOpt (opts : List Opt) (st : St) : Option (Option Res × St) :=
             else some (some (o.character, []), st)
           else some (some (o.character, []), st)
 
+/-- Process.cpp:1058-1165: the body of `read` behind the initial `nextChar()` -/
+def readWord (opts : List Opt) (st : St) : Option (Option Res × St) :=
+  if !st.inOpt && !st.skipOpt then
+    match st.peek 0 with
+    | none => none
+    | some c0 =>
+      if c0 = 45 then
+        match st.peek 1 with
+        | none => none
+        | some c1 =>
+          if c1 = 45 then
+            let st := { st with off := st.off + 2 }
+            match st.peek 0 with
+            | none => none
+            | some c2 =>
+              if c2 = 0 then
+                let st := { st with skipOpt := true }
+                match nextChar st with
+                | none => none
+                | some (false, st) => some (none, st)
+                | some (true, st) => readTail opts st
+              else longOpt opts st
+          else
+            let st := { st with off := st.off + 1 }
+            match st.peek 0 with
+            | none => none
+            | some c =>
+              if c = 0 then
+                if st.off < 1 then none
+                else
+                  match st.buf with
+                  | none => none
+                  | some b =>
+                    match slice b (st.off - 1) 1 with
+                    | none => none
+                    | some a => some (some (0, a), st)
+              else readTail opts { st with inOpt := true }
+      else readTail opts st
+  else readTail opts st
+
 /-- Process.cpp:1053 `bool Arguments::read(int& character, String& argument)`;
     `none` = out-of-bounds read, `some (none, _)` = returned false -/
 def read (opts : List Opt) (st : St) : Option (Option Res × St) :=
   match nextChar st with
   | none => none
   | some (false, st) => some (none, st)
-  | some (true, st) =>
-    if !st.inOpt && !st.skipOpt then
-      match st.peek 0 with
-      | none => none
-      | some c0 =>
-        if c0 = 45 then
-          match st.peek 1 with
-          | none => none
-          | some c1 =>
-            if c1 = 45 then
-              let st := { st with off := st.off + 2 }
-              match st.peek 0 with
-              | none => none
-              | some c2 =>
-                if c2 = 0 then
-                  let st := { st with skipOpt := true }
-                  match nextChar st with
-                  | none => none
-                  | some (false, st) => some (none, st)
-                  | some (true, st) => readTail opts st
-                else longOpt opts st
-            else
-              let st := { st with off := st.off + 1 }
-              match st.peek 0 with
-              | none => none
-              | some c =>
-                if c = 0 then
-                  if st.off < 1 then none
-                  else
-                    match st.buf with
-                    | none => none
-                    | some b =>
-                      match slice b (st.off - 1) 1 with
-                      | none => none
-                      | some a => some (some (0, a), st)
-                else readTail opts { st with inOpt := true }
-        else readTail opts st
-    else readTail opts st
+  | some (true, st) => readWord opts st
 
 inductive Run where
   | fault                       -- a read outside an argument string / option name
